@@ -34,7 +34,7 @@ def handler_fingerprint(try_node, h):
     import copy
 
     def trivial(s_):
-        if isinstance(s_, ast.Pass):
+        if isinstance(s_, (ast.Pass, ast.Continue)):
             return True
         if isinstance(s_, ast.Expr) and isinstance(s_.value, ast.Call) and (dotted(s_.value.func) or '').startswith('logger.'):
             return True
